@@ -9,7 +9,7 @@ import z3
 from .values import (V, NONE, Unsupported, PyRaise, ExcVal, Obj, Seq, SymMap, SliceVal, RangeVal,
                      Cx, Opaque, is_z3, is_int, is_real, is_bool, is_v, is_num, to_z3, to_real,
                      to_int, concrete_int, concrete_bool, ite, veq, uf, fresh_bool, fresh_int,
-                     fresh_v, fresh_real, real_const, to_cx, keq, round_half_even, trunc)
+                     fresh_v, fresh_real, real_const, to_cx, keq, round_half_even, trunc, NpScalar)
 from .modules import ModuleRef, FuncRef, ClassRef, Module
 
 
@@ -495,6 +495,8 @@ def _cmp_inf(op, a, b):
 
 
 def _is(a, b):
+    if isinstance(a, NpScalar) or isinstance(b, NpScalar):
+        return a is b          # a numpy scalar is never the singleton True / False / None
     if a is None and b is None:
         return True
     if a is None or b is None:
@@ -517,6 +519,10 @@ def _is(a, b):
 
 
 def _eq(ip, a, b):
+    if isinstance(a, NpScalar):
+        a = a.val
+    if isinstance(b, NpScalar):
+        b = b.val
     if isinstance(a, str) or isinstance(b, str):
         if isinstance(a, str) and isinstance(b, str):
             if a.startswith('<') or b.startswith('<'):
@@ -669,6 +675,13 @@ def _seq_method(ip, o, attr):
     def copy_(ip_, args, kw):
         return o.copy()
 
+    def extend(ip_, args, kw):
+        ip_.note_mutation(o)
+        other = snap(args[0])
+        n, old = o.length, o.fn
+        o.fn = lambda i: ite(i < n, old(i), other.fn(i - n))
+        o.length = z3.simplify(n + other.length)
+
     def sort(ip_, args, kw):
         raise Unsupported('sort of symbolic sequence')
 
@@ -677,7 +690,7 @@ def _seq_method(ip, o, attr):
 
     def transpose(ip_, args, kw):
         return o
-    table = {'append': append, 'insert': insert, 'copy': copy_, 'sort': sort, 'tolist': tolist}
+    table = {'append': append, 'insert': insert, 'copy': copy_, 'sort': sort, 'tolist': tolist, 'extend': extend}
     if o.kind == 'ndarray':
         table = {'copy': copy_, 'tolist': tolist, 'sort': sort}
         if attr in ('max', 'min'):
